@@ -37,6 +37,8 @@ func roleOf(point string) string {
 		return "qtimer"
 	case strings.HasPrefix(point, "updateIndex"), point == "tq.next":
 		return "tqworker"
+	case point == "conn.callback":
+		return "conncb"
 	case point == "Shutdown" || strings.HasPrefix(point, "close."):
 		return "selfshutdown"
 	}
@@ -644,7 +646,7 @@ func (e *Engine) HookObserver2(point, arg string) {
 	}
 	switch point {
 	case "Shutdown":
-		if t := e.Sim.Current(); t == nil || t.Name != "life" {
+		if t := e.Sim.Current(); t == nil || (t.Name != "life" && t.Role != "conncb") {
 			// a Shutdown the harness did not ask for (the library's own
 			// "go s.Shutdown()" after a failed subscribe): the started
 			// windows of this and later epochs are no longer known.
@@ -759,6 +761,12 @@ func (r *SvcRun) CheckLifecycle() {
 	}
 	for i, ep := range e.Epochs {
 		h.Evals++
+		if ep.SelfShutdown && ep.ServeErr == "" && ep.Conn.Stats.SubErrors == 0 {
+			// Serve returned although nobody called Shutdown in this epoch
+			// and no subscription failed: something else stopped the service
+			// (for instance the closed callback of an earlier connection)
+			h.Violate("C03", "stopped-without-shutdown", "", fmt.Sprintf("epoch %d: the Serve call returned without error although Shutdown was not called in that epoch and no subscribe failed", i))
+		}
 		if ep.ShutdownReturn != 0 && ep.ShutdownErr == "" {
 			if ep.Conn.CloseCount != 1 {
 				h.Violate("C03", "close-count", strconv.Itoa(ep.Conn.CloseCount), fmt.Sprintf("epoch %d: connection closed %d times", i, ep.Conn.CloseCount))
